@@ -210,9 +210,12 @@ func (c *C10Case) cliArgsSeed(seed int64) (args []string, files map[string]strin
 	case "rogue":
 		args = []string{"shuffle", "rogue", "-n", f(c.A), "-l", f(c.B), "--rogue-file", "rogues.txt"}
 	case "bootstrap":
-		args = []string{"build", "seqboot", "-n", "2", "-o", "boot"}
+		args = []string{"build", "seqboot", "-n", "3", "-o", "boot"}
 		if c.A > 0 {
 			args = append(args, "-f", f(c.A))
+		}
+		if c.Flag {
+			args = append(args, "-S") // the rows of every replicate in a drawn order
 		}
 	case "sample":
 		args = []string{"sample", "seqs", "-n", fmt.Sprint(c.N)}
@@ -241,6 +244,17 @@ func (c *C10Case) cliArgsSeed(seed int64) (args []string, files map[string]strin
 	}
 	args = append(args, "-i", "in.fa", "-t", "1", "--seed", fmt.Sprint(seed))
 	return
+}
+
+// withThreads: the same command line with another number of threads.
+func withThreads(args []string, t int) []string {
+	out := append([]string{}, args...)
+	for i := range out {
+		if out[i] == "-t" && i+1 < len(out) {
+			out[i+1] = fmt.Sprint(t)
+		}
+	}
+	return out
 }
 
 // applyCLI: the operation of the case asked of the command tree with the given seed; what it printed as an opResult.
@@ -352,7 +366,12 @@ func (c *C10Case) runCLIKind(ctx *Ctx, o *Outcome, fail func(string, string, ...
 	var b inprocResult
 	if c.Flag || c.Op == "bootstrap" {
 		// the second execution finds what the first one wrote (a re-run onto the same output names)
-		b = runInProc(ctx, args, files, c.MapSeeds[1], c.Clocks[1], a.files)
+		bargs := args
+		if c.Op == "bootstrap" {
+			// ... with another number of threads: every draw is made before the work is handed out
+			bargs = withThreads(args, 2+int(Mix(c.MapSeeds[1], "threads")%3))
+		}
+		b = runInProc(ctx, bargs, files, c.MapSeeds[1], c.Clocks[1], a.files)
 		o.Add("cli_second_execution_over_the_files_of_the_first", 1)
 	} else {
 		b = runInProc(ctx, args, files, c.MapSeeds[1], c.Clocks[1])
@@ -403,7 +422,7 @@ func (c *C10Case) runCLIKind(ctx *Ctx, o *Outcome, fail func(string, string, ...
 	o.Add("cli_replays_identical", 1)
 	if c.Op == "bootstrap" {
 		// one file per replicate: each is held to the invariant of a bootstrap sample
-		for k := 0; k < 2; k++ {
+		for k := 0; k < 3; k++ {
 			name := fmt.Sprintf("boot%d.fa", k)
 			b, ok := a.files[name]
 			if !ok {
@@ -412,6 +431,24 @@ func (c *C10Case) runCLIKind(ctx *Ctx, o *Outcome, fail func(string, string, ...
 			}
 			var res opResult
 			res.names, res.seqs = parseFastaText(b)
+			if c.Flag && len(res.names) == len(c.Aln.Names) {
+				// -S: the rows come in a drawn order - a permutation of the input's; put back for the invariant
+				by := map[string]string{}
+				for i, nm := range res.names {
+					by[nm] = res.seqs[i]
+				}
+				if len(by) == len(res.names) {
+					var rn, rs []string
+					for _, nm := range c.Aln.Names {
+						if q, ok := by[nm]; ok {
+							rn, rs = append(rn, nm), append(rs, q)
+						}
+					}
+					if len(rn) == len(res.names) {
+						res.names, res.seqs = rn, rs
+					}
+				}
+			}
 			for i := range res.names {
 				res.rows = append(res.rows, res.names[i]+":"+res.seqs[i])
 			}
